@@ -136,8 +136,11 @@ theorem fresh_answers (gt : String) (finite : α → Bool) (dbl : Bool) (cast : 
     simp [accessS, coordIndex_spec, h1, h0, hS, List.getElem?_eq_none hn]
 
 /-- **Call order does not matter, and the other coordinate type is refused without side effect** — for every group
-read through its instance (`annread`, `MicroscopyBulkSimpleAnnotations.from_dataset`, which hands the instance's
-AnnotationCoordinateType down to the groups: `Gen.sopHandsDownCoordinateType`, `Gen.coordTypeGuard`).  ANY history of
+read through an instance whose AnnotationCoordinateType is the group's own coordinate type `ctOf c` (`annread`,
+`MicroscopyBulkSimpleAnnotations.from_dataset`, which hand the instance's type down to the groups:
+`Gen.sopHandsDownCoordinateType`, `Gen.coordTypeGuard`).  Every instance the library's constructor builds is of that kind:
+it refuses a group built with another coordinate type (`sop_coordinate_types`, /repo d17b77f); a file from elsewhere whose
+AnnotationCoordinateType contradicts the data of a group is outside the statement.  ANY history of
 whole-group and per-annotation accesses with ANY coordinate types gives, access by access, the answer a freshly parsed
 object gives to that single access: with the group's own type the whole stored input / its `k`-th annotation /
 ValueError for `k < 1` / IndexError for `k > n`; with the other type ValueError — and nothing an earlier access did
@@ -145,8 +148,7 @@ ValueError for `k < 1` / IndexError for `k > n`; with the other type ValueError 
 theorem history_independent (gt : String) (finite : α → Bool) (dbl : Bool) (cast : α → α) (gd : GData α) (c : Nat)
     (v : Valid gt finite cast gd c) (g : Group α) (hg : construct gt finite dbl cast gd = .ok g) (accs : List Access) :
     runHistory (parseVia (ctOf c) g) accs = accs.map (fun a => (accessS (parseVia (ctOf c) g) a).1) ∧
-    (∀ a : Access, a.ct ≠ ctOf c → (accessS (parseVia (ctOf c) g) a).1 = .error .value ∨
-      ∃ k, a = .nth k a.ct ∧ k < 1) ∧
+    (∀ a : Access, a.ct ≠ ctOf c → (accessS (parseVia (ctOf c) g) a).1 = .error .value) ∧
     (accessS (parseVia (ctOf c) g) (.whole (ctOf c))).1 = .ok (.whole (castG cast gd)) ∧
     (∀ (k : Nat) (hk : k < gd.length), (accessS (parseVia (ctOf c) g) (.nth ((k : Int) + 1) (ctOf c))).1 =
       .ok (.nth ((castG cast gd)[k]'(by simpa [castG] using hk)))) ∧
@@ -173,15 +175,13 @@ theorem history_independent (gt : String) (finite : α → Bool) (dbl : Bool) (c
   · intro a ha
     cases a with
     | whole x =>
-      left
       simp only [Access.ct] at ha
       simp [accessS, getGraphicDataS, hwrong x ha]
     | nth k x =>
       simp only [Access.ct] at ha
       by_cases hk : k < 1
-      · right; exact ⟨k, rfl, hk⟩
-      · left
-        simp [accessS, coordIndex_spec, hk, getGraphicDataS, hwrong x ha]
+      · simp [accessS, coordIndex_spec, hk]
+      · simp [accessS, coordIndex_spec, hk, getGraphicDataS, hwrong x ha]
 
 /-- the same for a group parsed ON ITS OWN (`AnnotationGroup.from_dataset`) whose z coordinate is shared: the stored
 CommonZCoordinateValue exists for 3-D data only, so '2D' is refused and every history is order-independent -/
@@ -271,8 +271,9 @@ theorem tie_sop_hands_down (t : Int) (g : Group α) :
     (parseVia t g).enc = g.enc ∧ (parse g).known = g.known :=
   ⟨rfl, by simp [parseVia, sopHandsDownCoordinateType], rfl, rfl, rfl⟩
 
-/-- **Round trip through the instance**: the group read back from its instance returns every annotation unchanged and —
-like the freshly built object — refuses the other coordinate type -/
+/-- **Round trip through the instance** (an instance of the group's own coordinate type — the only kind the constructor
+accepts, `sop_coordinate_types`): the group read back from its instance returns every annotation unchanged and — like the
+freshly built object — refuses the other coordinate type -/
 theorem graphic_data_roundtrip_via_instance (gt : String) (finite : α → Bool) (dbl : Bool) (cast : α → α) (gd : GData α) (c : Nat)
     (v : Valid gt finite cast gd c) :
     ∃ g, construct gt finite dbl cast gd = .ok g ∧
@@ -721,13 +722,36 @@ theorem tie_measurement_check {β : Type} (m : MeasEnc β) (n : Nat) :
            (fun _ => ())) :=
   ⟨getValues_err_index m n, checkMeas_follows_plan m n⟩
 
+/-- **a group built with another coordinate type than the instance's is refused by the SOP class constructor** (malformed
+input; fix in /repo: before, a 3-D group in a '2D' instance was written and came back from the file as reinterpreted 2-D
+points).  `sopAcceptsTypes` is the regenerated loop body `Gen.sopGroupCheck` applied to every (correctly numbered) group —
+`_graphic_data` of a built group holds exactly its own type, a parsed group holds nothing and is not checked — and it accepts
+iff every built group has the instance's type (stream `sopTypes`, malformed kind `sop-type-mismatch`) -/
+theorem sop_coordinate_types (ct : Int) (built : List (Option Int)) :
+    sopAcceptsTypes ct built = sopTypeLoop ct 0 built ∧
+    (sopAcceptsTypes ct built = true ↔ ∀ t, some t ∈ built → t = ct) := by
+  refine ⟨sopAcceptsTypes_is_source_loop ct built 0, ?_⟩
+  simp only [sopAcceptsTypes, List.all_eq_true]
+  constructor
+  · intro h t ht
+    have := h (some t) ht
+    simpa using this
+  · intro h b hb
+    cases b with
+    | none => rfl
+    | some t => simpa using h t hb
+
+example : sopAcceptsTypes 2 [some 2, none, some 2] = true ∧ sopAcceptsTypes 2 [some 2, some 3] = false ∧
+    sopAcceptsTypes 3 [none, some 2] = false := by decide
+
 /-- the SOP class constructor accepts a list of group numbers iff its regenerated loop body (`Gen.sopGroupCheck`)
 succeeds at every position 0, 1, … -/
 theorem tie_sop_numbering (numbers : List Int) : sopAcceptsNumbers numbers = sopLoop 0 numbers :=
   sopAcceptsNumbers_is_source_loop numbers
 
 example : sourceIndexList [6, 8, 4] = [1, 7, 15] ∧ sopLoop 0 [1, 2, 3] = true ∧ sopLoop 0 [1, 3] = false ∧
-    sopGroupCheck 1 true 3 = .error .value := by decide
+    sopGroupCheck 1 true 3 0 false = .error .value ∧ sopGroupCheck 1 true 2 1 true = .error .value ∧
+    sopGroupCheck 1 true 2 1 false = .ok 0 ∧ sopGroupCheck 1 true 2 0 true = .ok 0 := by decide
 
 /-! ## non-vacuity -/
 
